@@ -404,14 +404,27 @@ func renderIfaceD(v interface{}, depth int) string {
 }
 
 type chunkReader struct {
-	data []byte
-	n    int
+	data  []byte
+	n     int
+	zeros int
 }
+
+// a decoder that keeps calling Read with a zero-length buffer while data is left never makes
+// progress; the reader gives up on its behalf so that the executor can report the livelock
+type hangSentinel struct{}
 
 func (r *chunkReader) Read(p []byte) (int, error) {
 	if len(r.data) == 0 {
 		return 0, stdio.EOF
 	}
+	if len(p) == 0 {
+		r.zeros++
+		if r.zeros > 100000 {
+			panic(hangSentinel{})
+		}
+		return 0, nil
+	}
+	r.zeros = 0
 	k := r.n
 	if k > len(r.data) {
 		k = len(r.data)
@@ -427,6 +440,10 @@ func (r *chunkReader) Read(p []byte) (int, error) {
 func decodeIface(dec *io.Decoder) (res string) {
 	defer func() {
 		if e := recover(); e != nil {
+			if _, ok := e.(hangSentinel); ok {
+				res = "d:HANG"
+				return
+			}
 			res = "d:PANIC:" + decErrClass(dec.Error)
 		}
 	}()
@@ -442,7 +459,27 @@ func optsString(dec *io.Decoder) string {
 type decRunner struct {
 	lastInput  []byte // set by RB / RR when the next operation is the first read of that input
 	justReset  bool
-	resetSince bool // Reset()/Simple() was called since the last Decode (or the decoder is new)
+	resetSince bool     // Reset()/Simple() was called since the last Decode (or the decoder is new)
+	slices     [][]byte // every slice handed to NewDecoder / ResetBytes, and what it contained
+	origs      [][]byte
+}
+
+func (r *decRunner) give(b []byte) []byte {
+	r.slices = append(r.slices, b)
+	r.origs = append(r.origs, append([]byte(nil), b...))
+	return b
+}
+
+// did the decoder write into a slice a caller gave it?
+func (r *decRunner) clobbered() string {
+	c := "c0"
+	for i, b := range r.slices {
+		if !bytes.Equal(b, r.origs[i]) {
+			c = "c1"
+			r.origs[i] = append([]byte(nil), b...)
+		}
+	}
+	return c
 }
 
 func (r *decRunner) op(dec *io.Decoder, op string, wantFresh bool) (obs string, fresh string) {
@@ -456,7 +493,14 @@ func (r *decRunner) op(dec *io.Decoder, op string, wantFresh bool) (obs string, 
 			fresh = decodeIface(f)
 		}
 		r.justReset, r.resetSince = false, false
-		return decodeIface(dec), fresh
+		res := decodeIface(dec)
+		if res != "d:HANG" {
+			res += ":" + r.clobbered()
+		}
+		if fresh != "" && fresh != "d:HANG" {
+			fresh += ":c0"
+		}
+		return res, fresh
 	case op == "R":
 		dec.Reset()
 		r.resetSince = true
@@ -468,12 +512,12 @@ func (r *decRunner) op(dec *io.Decoder, op string, wantFresh bool) (obs string, 
 		r.resetSince = true
 	case strings.HasPrefix(op, "RB"):
 		b, _ := hex.DecodeString(op[2:])
-		dec.ResetBytes(b)
-		r.lastInput, r.justReset = b, true
+		dec.ResetBytes(r.give(b))
+		r.lastInput, r.justReset = append([]byte(nil), b...), true
 		return "u", ""
 	case strings.HasPrefix(op, "RR"):
 		b, _ := hex.DecodeString(op[2:])
-		dec.ResetReader(&chunkReader{append([]byte(nil), b...), 3})
+		dec.ResetReader(&chunkReader{data: append([]byte(nil), b...), n: 3})
 		r.lastInput, r.justReset = b, true
 		return "u", ""
 	case op == "BF":
@@ -504,11 +548,12 @@ func runDseq(c *c14Case, obs *c14Obs) {
 	defer debug.SetGCPercent(100)
 	drainPools()
 	var pool []*io.Decoder
+	r := &decRunner{} // one for the whole case: a slice kept by a pooled decoder belongs to an earlier use
 	for _, s := range c.Sessions {
 		so := sessObs{Got: -2}
 		var dec *io.Decoder
 		pooled := s.Get == "pool"
-		r := &decRunner{}
+		r.justReset, r.resetSince = false, false
 		switch {
 		case pooled:
 			dec = io.GetDecoder()
@@ -523,11 +568,11 @@ func runDseq(c *c14Case, obs *c14Obs) {
 			}
 		case strings.HasPrefix(s.Get, "newdec:"):
 			b, _ := hex.DecodeString(s.Get[7:])
-			dec = io.NewDecoder(b)
-			r.lastInput, r.justReset, r.resetSince = b, true, true
+			dec = io.NewDecoder(r.give(b))
+			r.lastInput, r.justReset, r.resetSince = append([]byte(nil), b...), true, true
 		case strings.HasPrefix(s.Get, "newreader:"):
 			b, _ := hex.DecodeString(s.Get[10:])
-			dec = io.NewDecoderFromReader(&chunkReader{append([]byte(nil), b...), 3})
+			dec = io.NewDecoderFromReader(&chunkReader{data: append([]byte(nil), b...), n: 3})
 			r.lastInput, r.justReset, r.resetSince = b, true, true
 		}
 		for _, op := range s.Ops {
@@ -691,7 +736,7 @@ func scribble(buf []byte) {
 	for i := 0; i < 3; i++ {
 		var v interface{}
 		_ = io.Formatter{Simple: false}.Unmarshal(append([]byte(nil), junk...), &v)
-		_ = io.Formatter{Simple: i%2 == 0}.UnmarshalFromReader(&chunkReader{append([]byte(nil), junk...), 64}, &v)
+		_ = io.Formatter{Simple: i%2 == 0}.UnmarshalFromReader(&chunkReader{data: append([]byte(nil), junk...), n: 64}, &v)
 		_ = io.Formatter{Simple: i%2 == 1}.UnmarshalFromReader(bytes.NewReader(junk), &v)
 		_, _ = io.Formatter{Simple: false}.Marshal(v)
 	}
@@ -718,9 +763,9 @@ func runScribble(c *c14Case, obs *c14Obs) {
 		case "reader":
 			err = io.Formatter{Simple: c.Simple}.UnmarshalFromReader(bytes.NewReader(buf), dest)
 		case "reader1":
-			err = io.Formatter{Simple: c.Simple}.UnmarshalFromReader(&chunkReader{buf, 1}, dest)
+			err = io.Formatter{Simple: c.Simple}.UnmarshalFromReader(&chunkReader{data: buf, n: 1}, dest)
 		case "reader7":
-			err = io.Formatter{Simple: c.Simple}.UnmarshalFromReader(&chunkReader{buf, 7}, dest)
+			err = io.Formatter{Simple: c.Simple}.UnmarshalFromReader(&chunkReader{data: buf, n: 7}, dest)
 		default:
 			panic("c14: bad via " + c.Via)
 		}
@@ -773,7 +818,7 @@ func runViewAPI(c *c14Case, obs *c14Obs) {
 	if c.Via == "slice" {
 		dec = io.NewDecoder(src)
 	} else {
-		dec = io.NewDecoderFromReader(&chunkReader{src, 256})
+		dec = io.NewDecoderFromReader(&chunkReader{data: src, n: 256})
 	}
 	dec.Simple(c.Simple)
 	var bs []byte
@@ -837,7 +882,7 @@ func doRaceOp(g typeGroup, seed int, op raceOp) (out string, errs string) {
 	case "unmarshalr":
 		data, _ := hex.DecodeString(op.Data)
 		d := g.dests()[op.Slot]
-		err := io.Formatter{Simple: op.Simple}.UnmarshalFromReader(&chunkReader{data, 5}, d)
+		err := io.Formatter{Simple: op.Simple}.UnmarshalFromReader(&chunkReader{data: data, n: 5}, d)
 		return jsonRender(d), errText(err)
 	case "cenc":
 		v := g.values(seed)[op.Slot]
